@@ -34,6 +34,8 @@ type emitter struct {
 	pendingDefs []*Term
 	seq         int
 	prodNames   map[string]string
+	absDivMod   bool     // print div / mod as uninterpreted functions (plus the range of each remainder)
+	rawAsserts  []string // extra assertions in SMT syntax (ranges of abstracted remainders)
 }
 
 func smtInt(k *big.Int) string {
@@ -224,8 +226,30 @@ func (e *emitter) expr(t *Term, bv map[string]bool) string {
 		}
 		return nary("*")
 	case ODiv:
+		if e.absDivMod {
+			if !e.declared["fn:absdiv"] {
+				e.declared["fn:absdiv"] = true
+				e.sb.WriteString("(declare-fun absdiv (Int Int) Int)\n")
+			}
+			return nary("absdiv")
+		}
 		return nary("div")
 	case OMod:
+		if e.absDivMod {
+			if !e.declared["fn:absmod"] {
+				e.declared["fn:absmod"] = true
+				e.sb.WriteString("(declare-fun absmod (Int Int) Int)\n")
+			}
+			x := nary("absmod")
+			if t.Args[1].Op == OConst && t.Args[1].K.Sign() > 0 && !e.dependsOnBound(t, bv) {
+				key := "absmodrange:" + x
+				if !e.declared[key] {
+					e.declared[key] = true
+					e.rawAsserts = append(e.rawAsserts, fmt.Sprintf("(and (<= 0 %s) (< %s %s))", x, x, smtInt(t.Args[1].K)))
+				}
+			}
+			return x
+		}
 		return nary("mod")
 	case OIte:
 		return nary("ite")
@@ -374,10 +398,12 @@ type Query struct {
 	Goal     *Term
 	Abstract bool
 	Preamble string // extra SMT text (recursive definitions etc.)
+	NoDefs   bool   // do not append the definitional facts of auxiliary symbols
+	AbsDiv   bool   // div and mod as uninterpreted functions (a weakening: only "unsat" answers are usable)
 }
 
 func (f *Factory) Script(q *Query, wantModel bool) string {
-	e := &emitter{f: f, abstract: q.Abstract, names: map[*Term]string{}, declared: map[string]bool{}}
+	e := &emitter{f: f, abstract: q.Abstract, names: map[*Term]string{}, declared: map[string]bool{}, absDivMod: q.AbsDiv}
 	for _, m := range rePreDecl.FindAllStringSubmatch(q.Preamble, -1) {
 		if m[1] == "declare-sort" {
 			e.declared["sort:"+m[2]] = true
@@ -397,7 +423,7 @@ func (f *Factory) Script(q *Query, wantModel bool) string {
 		asserts = append(asserts, e.ref(h, nil))
 	}
 	asserts = append(asserts, "(not "+e.ref(q.Goal, nil)+")")
-	for len(e.pendingDefs) > 0 {
+	for len(e.pendingDefs) > 0 && !q.NoDefs {
 		d := e.pendingDefs[0]
 		e.pendingDefs = e.pendingDefs[1:]
 		asserts = append(asserts, e.ref(d, nil))
@@ -410,6 +436,9 @@ func (f *Factory) Script(q *Query, wantModel bool) string {
 	out.WriteString(q.Preamble)
 	out.WriteString(e.sb.String())
 	for _, a := range asserts {
+		fmt.Fprintf(&out, "(assert %s)\n", a)
+	}
+	for _, a := range e.rawAsserts {
 		fmt.Fprintf(&out, "(assert %s)\n", a)
 	}
 	out.WriteString("(check-sat)\n")
@@ -441,11 +470,125 @@ func scriptKey(script string) string {
 	return hex.EncodeToString(h[:])
 }
 
+// noDefsScript: the same goal without the definitional facts of auxiliary symbols (reg, kreg, ...) that the
+// generator appends after the goal whenever such a symbol occurs anywhere in the hypotheses. Dropping hypotheses is
+// sound; goals that do not need those facts (window steps of the scalar multiplications) are then decided at once
+// (measured: 0.1 s against a time-out).
+func noDefsScript(script string) (string, bool) {
+	i := strings.Index(script, "(assert (not ")
+	if i < 0 {
+		return "", false
+	}
+	j := strings.Index(script[i:], "\n")
+	if j < 0 {
+		return "", false
+	}
+	head, tail := script[:i+j+1], script[i+j+1:]
+	var out []string
+	dropped := false
+	for _, ln := range strings.Split(tail, "\n") {
+		if strings.HasPrefix(ln, "(assert ") {
+			dropped = true
+			continue
+		}
+		out = append(out, ln)
+	}
+	if !dropped {
+		return "", false
+	}
+	return head + strings.Join(out, "\n"), true
+}
+
+// linearHyps: the hypotheses of a query without the top-level conjuncts that contain a product of two
+// non-constant terms; nil when nothing would be dropped. Dropping hypotheses is sound; the step obligations of
+// the scalar multiplications do not need the (non-linear) facts about the lattice decomposition that sit in the
+// same path condition, and are decided at once without them.
+func linearHyps(f *Factory, hyps []*Term) []*Term {
+	nonlinear := func(t *Term) bool {
+		seen := map[*Term]bool{}
+		var rec func(t *Term) bool
+		rec = func(t *Term) bool {
+			if seen[t] {
+				return false
+			}
+			seen[t] = true
+			if t.Op == OMul {
+				n := 0
+				for _, a := range t.Args {
+					if a.Op != OConst {
+						n++
+					}
+				}
+				if n >= 2 {
+					return true
+				}
+			}
+			for _, a := range t.Args {
+				if rec(a) {
+					return true
+				}
+			}
+			return false
+		}
+		return rec(t)
+	}
+	var out []*Term
+	dropped := false
+	for _, h := range hyps {
+		cs := []*Term{h}
+		if h.Op == OAnd {
+			cs = h.Args
+		}
+		for _, c := range cs {
+			if nonlinear(c) {
+				dropped = true
+				continue
+			}
+			out = append(out, c)
+		}
+	}
+	if !dropped {
+		return nil
+	}
+	return out
+}
+
+const altBegin = ";;ALT-BEGIN\n"
+const altPrefix = ";;A "
+
+// withAlt appends an alternative (weaker-hypotheses) script as a comment block; altScript extracts it.
+func withAlt(script, alt string) string {
+	var b strings.Builder
+	b.WriteString(script)
+	b.WriteString(altBegin)
+	for _, ln := range strings.Split(strings.TrimRight(alt, "\n"), "\n") {
+		b.WriteString(altPrefix)
+		b.WriteString(ln)
+		b.WriteString("\n")
+	}
+	return b.String()
+}
+
+func altScript(script string) (string, bool) {
+	i := strings.Index(script, altBegin)
+	if i < 0 {
+		return "", false
+	}
+	var out []string
+	for _, ln := range strings.Split(script[i+len(altBegin):], "\n") {
+		if strings.HasPrefix(ln, altPrefix) {
+			out = append(out, ln[len(altPrefix):])
+		}
+	}
+	return strings.Join(out, "\n") + "\n", true
+}
+
 type solverSpec struct {
-	name  string
-	cmd   func(file string, timeoutS int) []string
-	pre   string
-	xform func(script string) (string, bool) // rewrites the script for this member; false: the member does not take part
+	name   string
+	cmd    func(file string, timeoutS int) []string
+	pre    string
+	xform  func(script string) (string, bool) // rewrites the script for this member; false: the member does not take part
+	weaker bool                               // the rewritten script has fewer hypotheses: only its "unsat" is an answer
 }
 
 // somScript: quantifier-free goals are also tried with an explicit strategy: eliminate the defining equations of
@@ -463,12 +606,14 @@ func somScript(script string) (string, bool) {
 }
 
 var solvers = []solverSpec{
-	{"z3-new-5.1.0", func(f string, t int) []string { return []string{"z3-new", fmt.Sprintf("-T:%d", t), f} }, "", nil},
-	{"z3-4.8.12", func(f string, t int) []string { return []string{"z3", fmt.Sprintf("-T:%d", t), f} }, "", nil},
+	{"z3-new-5.1.0", func(f string, t int) []string { return []string{"z3-new", fmt.Sprintf("-T:%d", t), f} }, "", nil, false},
+	{"z3-4.8.12", func(f string, t int) []string { return []string{"z3", fmt.Sprintf("-T:%d", t), f} }, "", nil, false},
 	{"cvc5-1.0", func(f string, t int) []string {
 		return []string{"cvc5", "--lang=smt2", fmt.Sprintf("--tlimit=%d", t*1000), "--fmf-fun", f}
-	}, "(set-logic ALL)\n", nil},
-	{"z3-4.8.12-som", func(f string, t int) []string { return []string{"z3", fmt.Sprintf("-T:%d", t), f} }, "", somScript},
+	}, "(set-logic ALL)\n", nil, false},
+	{"z3-4.8.12-som", func(f string, t int) []string { return []string{"z3", fmt.Sprintf("-T:%d", t), f} }, "", somScript, false},
+	{"z3-4.8.12-linhyps", func(f string, t int) []string { return []string{"z3", fmt.Sprintf("-T:%d", t), f} }, "", altScript, true},
+	{"z3-4.8.12-nodefs", func(f string, t int) []string { return []string{"z3", fmt.Sprintf("-T:%d", t), f} }, "", noDefsScript, true},
 }
 
 var solverSem = make(chan struct{}, 14)
@@ -525,6 +670,10 @@ func runOne(ctx context.Context, sp solverSpec, script string, dir string, name 
 	case "unsat":
 		res.Status = "unsat"
 	case "sat":
+		if sp.weaker {
+			res.Status = "unknown" // a model of fewer hypotheses is not a counterexample
+			break
+		}
 		res.Status = "sat"
 		res.Model = parseModel(out)
 	case "unknown":
